@@ -34,7 +34,7 @@ W(p) == RandomElement({j \in 1..100 : ncommits >= 0}) <= p
 
 \* steps that do not change the abstract state: other pipeline stages, clean restart, and
 \* transactions the database must reject without a trace
-Silent(rec) == hist' = Append(hist, rec) /\
+Silent(rec) == hist' = Hist(rec) /\
                UNCHANGED <<roots, nrc, nkids, xs, covlT, covlX, queue, inflight, toDeref, locked, snap,
                            nextId, nextCid, ncommits, nlocks, ideal, idealX, conflictT, conflictX, corrupt,
                            hdrMark, leaked, ncrash>>
